@@ -107,9 +107,10 @@ def raw_key(kind, key):
     return (st(key[0]), key[1])
 
 
-def observe(kind, h, universe, probe_keys, flip=0):
+def observe(kind, h, universe, probe_keys, flip=0, sizes=None):
     """flip (0/1) swaps which of the two spellings (size= / order=) each filtered query uses."""
     o = {}
+    SZ = sizes or SIZES
     nodes = q(h.get_nodes)
     o["nodes"] = tags(nodes)
     present = [] if _e(nodes) else list(nodes)
@@ -179,7 +180,7 @@ def observe(kind, h, universe, probe_keys, flip=0):
     o["nbr"] = {tag(n): tags(q(h.get_neighbors, n)) for n in present}
     r = q(h.degree_distribution)
     o["degdist"] = repr(r) if _e(r) else {str(d): c for d, c in r.items()}
-    for s in SIZES:
+    for s in SZ:
         for up in (False, True):
             name = f"size={s}/up={int(up)}"
             # alternate between the size= and order= spelling of the same filter
@@ -213,7 +214,7 @@ def observe(kind, h, universe, probe_keys, flip=0):
         o["tgt_edges"] = {tag(n): lst(kind, q(h.get_target_edges, n)) for n in present}
         o["in_deg"] = {tag(n): val(q(in_degree, h, n)) for n in present}
         o["out_deg"] = {tag(n): val(q(out_degree, h, n)) for n in present}
-        for s in SIZES:
+        for s in SZ:
             kw = {"size": s} if (s + flip) % 2 else {"order": s - 1}
             kw2 = {"order": s - 1} if (s + flip) % 2 else {"size": s}
             o[f"src_edges/size={s}"] = {tag(n): lst(kind, q(h.get_source_edges, n, **kw)) for n in present}
